@@ -589,6 +589,14 @@ namespace Pistache::Http
             buffer.reset();
             cursor.reset();
 
+            // a message abandoned in the middle of its body must not leave its
+            // progress counters behind for the next message
+            for (auto& step : allSteps)
+            {
+                if (step)
+                    step->reset();
+            }
+
             currentStep = 0;
         }
 
